@@ -1,7 +1,8 @@
-(* C02 — with a max session age the client can always recover: from any reachable state of a running client a
-   healthy continuation gets every chunk ever taken reported delivered (scheduler + lexicographic measure). *)
+(* C02 — the repaired client (p_fix = true) can always recover, with or without a max session age: from any
+   reachable state of a running client a healthy continuation gets every chunk ever taken reported delivered
+   (scheduler + lexicographic measure). *)
 From SV Require Import Model.Common Model.Client Spec.ClientSpec
-     Proofs.ClientBase Proofs.ClientSafety Proofs.ClientHistory Proofs.ClientOrder Proofs.ClientTheorems Proofs.ClientLiveness.
+     Proofs.ClientBase Proofs.ClientSafety Proofs.ClientHistory Proofs.ClientOrder Proofs.ClientTheorems Proofs.ClientLiveness Proofs.ClientFixed.
 From Coq Require Import Lia Permutation Wf_nat.
 Local Open Scope nat_scope.
 
@@ -33,8 +34,28 @@ Proof.
 Qed.
 
 
+
 (* events of a continuation in which the client keeps running and the upstream behaves: no stop, no reconnect
-   request, nothing new offered, every connect / send / ping succeeds, every ack read returns an id *)
+   request, nothing new offered, every connect succeeds, every ack read returns an id, and a send / ping / ack read
+   fails ONLY on a connection whose Close the client itself has executed ([closed]: the connections closed so far) *)
+Definition is_closed (closed : list nat) (k : nat) : bool := existsb (Nat.eqb k) closed.
+
+Definition healthy_at (closed : list nat) (e : event) : bool :=
+  match e with
+  | EOffer _ | EStop | EInClose | EReconnReq | EBugTimeout | ELeftover _ | EFinished => false
+  | EConnRet _ ok => ok
+  | ESendRet k _ r | EPingRet k r => match r with ROk => true | RErr => is_closed closed k end
+  | EAckRet k a => match a with AId _ => true | AEmpty => false | AErr => is_closed closed k end
+  | _ => true
+  end.
+
+Fixpoint healthy_from (closed : list nat) (tr : list event) : bool :=
+  match tr with
+  | [] => true
+  | e :: r => healthy_at closed e && healthy_from (closed ++ closes_of [e]) r
+  end.
+
+(* the stricter, state-free notion used by the scripts of ClientLiveness: no failure at all *)
 Definition healthy_cont (e : event) : bool :=
   match e with
   | EOffer _ | EStop | EInClose | EReconnReq | EBugTimeout | ELeftover _ | EFinished => false
@@ -43,6 +64,24 @@ Definition healthy_cont (e : event) : bool :=
   | EAckRet _ a => match a with AId _ => true | _ => false end
   | _ => true
   end.
+
+Lemma healthy_cont_at : forall cl e, healthy_cont e = true -> healthy_at cl e = true.
+Proof. intros cl e H. destruct e; try exact H; simpl in *; try (destruct r; [reflexivity|discriminate]). destruct a; try discriminate; reflexivity. Qed.
+
+Lemma healthy_cont_from : forall tr cl, forallb healthy_cont tr = true -> healthy_from cl tr = true.
+Proof.
+  induction tr as [|e tr IH]; intros cl H; [reflexivity|]. simpl in H. apply andb_prop in H. destruct H as [H1 H2].
+  cbn [healthy_from]. rewrite (healthy_cont_at cl e H1). apply IH. exact H2.
+Qed.
+
+Lemma healthy_from_app : forall a b cl,
+  healthy_from cl (a ++ b) = healthy_from cl a && healthy_from (cl ++ closes_of a) b.
+Proof.
+  induction a as [|e a IH]; intros b cl.
+  - simpl. rewrite app_nil_r. reflexivity.
+  - cbn [app healthy_from]. rewrite IH, <- andb_assoc. f_equal. f_equal.
+    rewrite <- app_assoc. f_equal. destruct e; reflexivity.
+Qed.
 
 Definition rank (s : state) : nat :=
   match pc s with
@@ -66,7 +105,11 @@ Definition arank (s : state) : nat :=
   | None => 0
   end.
 
-Definition closer (s s' : state) : Prop := rank s' < rank s \/ (rank s' = rank s /\ arank s' < arank s).
+Definition crank (s : state) : nat := length (close_pend s).
+
+Definition closer (s s' : state) : Prop :=
+  rank s' < rank s \/ (rank s' = rank s /\ arank s' < arank s) \/
+  (rank s' = rank s /\ arank s' = arank s /\ crank s' < crank s).
 
 (* the acknowledger can always make a step towards being idle, drained or ended *)
 Lemma acker_step : forall P s ss,
@@ -94,16 +137,43 @@ Proof.
   - rewrite (He2 eq_refl) in Hend. discriminate.
 Qed.
 
-Lemma one_step : forall P s,
-  reach P s -> stopping s = false -> p_maxage P = true -> 1 <= p_cap P -> pc s <> MStart ->
-  exists e s', healthy_cont e = true /\ step P s e = Some s' /\ closer s s'.
+(* the states the scheduler drives towards: a session boundary, or processInput with a drained, idle acknowledger *)
+Definition settled (s : state) : bool :=
+  match pc s with
+  | MStart => true
+  | MInput => match cur s with
+              | Some ss => negb (s_ended ss) && match s_achan ss, s_apc ss with [], AIdle => true | _, _ => false end
+              | None => false
+              end
+  | _ => false
+  end.
+
+Lemma filter_len_le : forall (f : nat -> bool) l, length (filter f l) <= length l.
+Proof. intros f l. induction l as [|a l IH]; simpl; [lia|]. destruct (f a); simpl; lia. Qed.
+
+Lemma filter_shorter : forall k l, In k l -> length (filter (fun x => negb (Nat.eqb k x)) l) < length l.
 Proof.
-  intros P s Hr Hlive Hage Hcap Hpc.
+  intros k l. induction l as [|a l IH]; intros H; [contradiction|]. simpl.
+  destruct (Nat.eqb_spec k a); simpl.
+  - pose proof (filter_len_le (fun x => negb (Nat.eqb k x)) l). lia.
+  - destruct H as [H|H]; [congruence|]. specialize (IH H). lia.
+Qed.
+
+Lemma is_closed_In : forall cl k, In k cl -> is_closed cl k = true.
+Proof. intros cl k H. unfold is_closed. apply existsb_exists. exists k. split; [exact H|apply Nat.eqb_refl]. Qed.
+
+Lemma one_step : forall P tr0 s,
+  reach_by P tr0 s -> stopping s = false -> 1 <= p_cap P -> settled s = false ->
+  exists e s', healthy_at (closes_of tr0) e = true /\ step P s e = Some s' /\ closer s s'.
+Proof.
+  intros P tr0 s Hrb Hlive Hcap Hset.
+  assert (Hr : reach P s) by (exists tr0; exact Hrb).
   pose proof (inv1_reach P s Hr) as Hi. pose proof (inv6_reach P s Hr) as [N1 N2 N3].
   assert (Hstop : stop_sig s = false) by (unfold stopping in Hlive; destruct (stop_sig s); [discriminate|reflexivity]).
   assert (Hinc : in_closed s = false) by (unfold stopping in Hlive; destruct (stop_sig s); destruct (in_closed s); try discriminate; reflexivity).
   assert (Hsess : between (pc s) = false -> exists ss, cur s = Some ss) by (apply (i_insess s Hi)).
-  destruct (pc s) as [| | |f c|f c| |p|prev p| | |] eqn:Epc; try congruence.
+  unfold settled in Hset.
+  destruct (pc s) as [| | |f c|f c| |p|prev p| | |] eqn:Epc; try discriminate Hset.
   - (* MConnecting *)
     destruct (opener s) as [| | |ok] eqn:Eop; [exfalso; apply N3; auto| | |].
     + exists (EConnStart (S (nconn s))). eexists. split; [reflexivity|]. split.
@@ -139,11 +209,32 @@ Proof.
       * assert (Hne : s_achan ss <> []).
         { intro E. rewrite E in Eroom. simpl in Eroom. apply Nat.ltb_ge in Eroom. lia. }
         destruct (acker_step P s ss Hr Hcur Eend ltac:(auto)) as (e & s' & H1 & H2 & H3 & H4).
-        exists e, s'. split; [exact H1|]. split; [exact H2|]. right. auto.
-  - (* MInput *)
-    destruct (Hsess ltac:(reflexivity)) as (ss & Hcur).
-    exists EMaxAge. eexists. split; [reflexivity|]. split; [unfold step; rewrite Epc, Hcur, Hage; reflexivity|].
-    left. unfold rank. st_simpl. rewrite Epc. lia.
+        exists e, s'. split; [apply healthy_cont_at; exact H1|]. split; [exact H2|]. right. left. auto.
+  - (* MInput, not settled: the acknowledger has work to do, or it has ended (it closed the connection: the next
+       ping fails once Close has been executed) *)
+    destruct (Hsess ltac:(reflexivity)) as (ss & Hcur). rewrite Hcur in Hset.
+    destruct (s_ended ss) eqn:Eend.
+    + destruct (signals_once_lemma P s ss Hr Hcur) as (Hsig & _). rewrite Epc in Hsig. destruct (Hsig eq_refl) as [Hacl Habt].
+      destruct (ended_why P s Hr ss Hcur Eend) as [Hq|[Hq|Hq]]; try congruence.
+      destruct (close_tracked_reach P tr0 s Hrb ss Hcur Hq) as [Hp|Hc].
+      * exists (EClose (s_id ss)).
+        destruct (close_pend s) as [|k' rest] eqn:Ecp; [contradiction|].
+        destruct (Nat.eqb (s_id ss) k') eqn:Ek.
+        { eexists. split; [reflexivity|]. split; [unfold step; rewrite Ecp, Ek; reflexivity|].
+          right. right. unfold rank, arank, crank. st_simpl. cbn [close_pend opener st_misc]. rewrite Ecp. simpl. auto. }
+        { assert (Hin : In (s_id ss) rest).
+          { destruct Hp as [Hp|Hp]; [subst k'; rewrite Nat.eqb_refl in Ek; discriminate|exact Hp]. }
+          assert (Hex : existsb (Nat.eqb (s_id ss)) rest = true).
+          { apply existsb_exists. exists (s_id ss). split; [exact Hin|apply Nat.eqb_refl]. }
+          eexists. split; [reflexivity|]. split; [unfold step; rewrite Ecp, Ek, Hex; reflexivity|].
+          right. right. unfold rank, arank, crank. st_simpl. cbn [close_pend opener st_misc]. rewrite Ecp.
+          pose proof (filter_shorter (s_id ss) rest Hin). simpl. repeat split; auto. lia. }
+      * exists (EPingRet (s_id ss) RErr). eexists. split; [apply is_closed_In; exact Hc|]. split.
+        { unfold step. rewrite Epc, Hcur, Nat.eqb_refl. reflexivity. }
+        left. unfold rank. st_simpl. rewrite Epc. lia.
+    + destruct (acker_step P s ss Hr Hcur Eend) as (e & s' & H1 & H2 & H3 & H4).
+      { intros Ha. left. intro Hn. rewrite Ha, Hn in Hset. discriminate Hset. }
+      exists e, s'. split; [apply healthy_cont_at; exact H1|]. split; [exact H2|]. right. left. auto.
   - (* MSoftWait *)
     destruct (Hsess ltac:(reflexivity)) as (ss & Hcur).
     exists ESoftDone. eexists. split; [reflexivity|]. split; [unfold step; rewrite Epc, Hcur; reflexivity|].
@@ -157,55 +248,60 @@ Proof.
       destruct p; st_simpl; lia.
     + destruct (acker_step P s ss Hr Hcur Eend) as (e & s' & H1 & H2 & H3 & H4).
       { intros _. right. apply N2; [exact Hcur|reflexivity]. }
-      exists e, s'. split; [exact H1|]. split; [exact H2|]. right. auto.
+      exists e, s'. split; [apply healthy_cont_at; exact H1|]. split; [exact H2|]. right. left. auto.
   - (* MRetryWait *)
     exists ERetryTimeout. eexists. split; [reflexivity|]. split; [unfold step; rewrite Epc; reflexivity|].
     left. unfold rank. st_simpl. rewrite Epc. lia.
+  - (* MFinal *) rewrite N1 in Hlive. discriminate.
+  - (* MDone *) rewrite N1 in Hlive. discriminate.
 Qed.
 
-Lemma healthy_keeps_running : forall P s e s',
-  healthy_cont e = true -> step P s e = Some s' -> stop_sig s' = stop_sig s /\ in_closed s' = in_closed s /\ inq s' = inq s \/
+Lemma healthy_keeps_running : forall P cl s e s',
+  healthy_at cl e = true -> step P s e = Some s' -> stop_sig s' = stop_sig s /\ in_closed s' = in_closed s /\ inq s' = inq s \/
   (exists c, e = ETake c /\ stop_sig s' = stop_sig s /\ in_closed s' = in_closed s).
 Proof.
-  intros P s e s' Hh Hs. destruct e; try discriminate Hh; step_inv Hs;
+  intros P cl s e s' Hh Hs. destruct e; try discriminate Hh; step_inv Hs;
     cbn [stop_sig in_closed inq st_env st_main st_sess st_misc st_inq st_opener st_hist collect_hard collect_soft
          h_add_sent h_add_ack h_add_consumed h_add_handed h_set_finished h_add_los]; auto.
-  all: try (destruct r; discriminate Hh).
   all: try (right; eexists; split; [reflexivity|auto]).
 Qed.
 
-Lemma healthy_stopping : forall P s e s',
-  healthy_cont e = true -> step P s e = Some s' -> stopping s' = stopping s.
+Lemma healthy_stopping : forall P cl s e s',
+  healthy_at cl e = true -> step P s e = Some s' -> stopping s' = stopping s.
 Proof.
-  intros P s e s' Hh Hs. unfold stopping.
-  destruct (healthy_keeps_running P s e s' Hh Hs) as [(H1 & H2 & _)|(c & _ & H1 & H2)]; rewrite H1, H2; reflexivity.
+  intros P cl s e s' Hh Hs. unfold stopping.
+  destruct (healthy_keeps_running P cl s e s' Hh Hs) as [(H1 & H2 & _)|(c & _ & H1 & H2)]; rewrite H1, H2; reflexivity.
 Qed.
 
-Lemma to_boundary : forall P, p_maxage P = true -> 1 <= p_cap P ->
-  forall n m s, rank s = n -> arank s = m -> reach P s -> stopping s = false ->
-  exists tr s', run P s tr = Some s' /\ forallb healthy_cont tr = true /\ pc s' = MStart.
+Lemma to_settled : forall P, 1 <= p_cap P ->
+  forall n m l tr0 s, rank s = n -> arank s = m -> crank s = l -> reach_by P tr0 s -> stopping s = false ->
+  exists tr s', run P s tr = Some s' /\ healthy_from (closes_of tr0) tr = true /\ settled s' = true.
 Proof.
-  intros P Hage Hcap n. induction n as [n IHn] using lt_wf_ind.
+  intros P Hcap n. induction n as [n IHn] using lt_wf_ind.
   intros m. induction m as [m IHm] using lt_wf_ind.
-  intros s Hn Hm Hr Hlive.
-  destruct (pc s) eqn:Epc.
+  intros l. induction l as [l IHl] using lt_wf_ind.
+  intros tr0 s Hn Hm Hl Hr Hlive.
+  destruct (settled s) eqn:Eset.
   1: { exists [], s. auto. }
-  all: destruct (one_step P s Hr Hlive Hage Hcap ltac:(congruence)) as (e & s1 & He & Hs & Hc).
-  all: assert (Hr1 : reach P s1) by (eapply reach_step; eauto).
-  all: assert (Hl1 : stopping s1 = false) by (rewrite (healthy_stopping P s e s1 He Hs); exact Hlive).
-  all: destruct Hc as [Hlt|[Heq Hlt]];
-       [destruct (IHn (rank s1) ltac:(lia) (arank s1) s1 eq_refl eq_refl Hr1 Hl1) as (tr & s' & R & F & Pc)
-       |destruct (IHm (arank s1) ltac:(lia) s1 ltac:(lia) eq_refl Hr1 Hl1) as (tr & s' & R & F & Pc)].
-  all: exists (e :: tr), s'; simpl; rewrite Hs, He; auto.
+  destruct (one_step P tr0 s Hr Hlive Hcap Eset) as (e & s1 & He & Hs & Hc).
+  assert (Hr1 : reach_by P (tr0 ++ [e]) s1) by (unfold reach_by in *; rewrite run_snoc, Hr; exact Hs).
+  assert (Hl1 : stopping s1 = false) by (rewrite (healthy_stopping P _ s e s1 He Hs); exact Hlive).
+  assert (exists tr s', run P s1 tr = Some s' /\ healthy_from (closes_of (tr0 ++ [e])) tr = true /\ settled s' = true)
+    as (tr & s' & R & F & Pc).
+  { destruct Hc as [Hlt|[[Heq Hlt]|(Heq1 & Heq2 & Hlt)]].
+    - exact (IHn (rank s1) ltac:(lia) (arank s1) (crank s1) _ s1 eq_refl eq_refl eq_refl Hr1 Hl1).
+    - exact (IHm (arank s1) ltac:(lia) (crank s1) _ s1 ltac:(lia) eq_refl eq_refl Hr1 Hl1).
+    - exact (IHl (crank s1) ltac:(lia) _ s1 ltac:(lia) ltac:(lia) eq_refl Hr1 Hl1). }
+  exists (e :: tr), s'. cbn [run healthy_from]. rewrite Hs, He. rewrite closes_of_app in F. auto.
 Qed.
 
-Lemma healthy_run_stopping : forall P tr s s',
-  forallb healthy_cont tr = true -> run P s tr = Some s' -> stopping s' = stopping s.
+Lemma healthy_run_stopping : forall P tr cl s s',
+  healthy_from cl tr = true -> run P s tr = Some s' -> stopping s' = stopping s.
 Proof.
-  intros P tr. induction tr as [|e tr IH]; intros s s' Hf Hr; simpl in *.
+  intros P tr. induction tr as [|e tr IH]; intros cl s s' Hf Hr; simpl in *.
   - inversion Hr; reflexivity.
   - apply andb_prop in Hf. destruct Hf as [He Hf]. destruct (step P s e) as [s1|] eqn:E; [|discriminate Hr].
-    rewrite (IH s1 s' Hf Hr). eapply healthy_stopping; eauto.
+    rewrite (IH _ s1 s' Hf Hr). eapply healthy_stopping; eauto.
 Qed.
 
 Lemma healthy_script_healthy : forall k L Q, forallb healthy_cont (healthy k L Q) = true.
@@ -217,10 +313,16 @@ Proof.
   rewrite !H. reflexivity.
 Qed.
 
-Lemma healthy_no_offer : forall tr, forallb healthy_cont tr = true -> offered_of tr = [] /\ ~ In EBugTimeout tr /\ handed_of tr = [].
+Lemma rounds_healthy : forall k f l, forallb healthy_cont (flat_map (round k f) l) = true.
 Proof.
-  induction tr as [|e tr IH]; intros Hf; [simpl; auto|].
-  simpl in Hf. apply andb_prop in Hf. destruct Hf as [He Hf]. destruct (IH Hf) as (I1 & I2 & I3).
+  intros k f l. induction l as [|c l IH]; [reflexivity|]. cbn [flat_map]. rewrite forallb_app, IH.
+  destruct f; reflexivity.
+Qed.
+
+Lemma healthy_no_offer : forall tr cl, healthy_from cl tr = true -> offered_of tr = [] /\ ~ In EBugTimeout tr /\ handed_of tr = [].
+Proof.
+  induction tr as [|e tr IH]; intros cl Hf; [simpl; auto|].
+  cbn [healthy_from] in Hf. apply andb_prop in Hf. destruct Hf as [He Hf]. destruct (IH _ Hf) as (I1 & I2 & I3).
   destruct e; try discriminate He; simpl; (split; [exact I1|split; [|exact I3]]);
     intros [H|H]; try discriminate H; auto.
 Qed.
@@ -230,33 +332,55 @@ Proof. induction a as [|e a IH]; intros b; [reflexivity|]. destruct e; simpl; re
 Lemma handed_of_app : forall a b, handed_of (a ++ b) = handed_of a ++ handed_of b.
 Proof. induction a as [|e a IH]; intros b; [reflexivity|]. destruct e; simpl; rewrite ?IH; reflexivity. Qed.
 
-(* With a max session age: from ANY reachable state of a client that has not been asked to stop there is a
-   continuation in which it keeps running and the upstream behaves, after which every chunk ever taken from the
-   queue - including the ones stuck behind an unknown-id ACK - has been reported delivered, nothing is held,
-   nothing was handed back and the queue is empty. *)
+(* from a settled state the healthy script (a fresh session, or the rest of the queue on the running one) leaves
+   nothing held and nothing queued *)
+Lemma settled_finish : forall P s, p_fix P = true -> 1 <= p_cap P -> reach P s -> stopping s = false -> settled s = true ->
+  exists tr s', run P s tr = Some s' /\ forallb healthy_cont tr = true /\ holdings s' = [] /\ inq s' = [].
+Proof.
+  intros P s Hfix Hcap Hr Hlive Hset. unfold settled in Hset.
+  assert (Hstop : stop_sig s = false) by (unfold stopping in Hlive; destruct (stop_sig s); [discriminate|reflexivity]).
+  destruct (pc s) eqn:Epc; try discriminate Hset.
+  - destruct (progress_lemma P s Hcap Epc Hstop) as (s2 & R2 & _ & _ & L2 & Q2 & La2 & (ss2 & C2 & Hh2)).
+    eexists. exists s2. split; [exact R2|]. split; [apply healthy_script_healthy|].
+    split; [unfold holdings; rewrite L2, La2, C2, Hh2; reflexivity|exact Q2].
+  - destruct (cur s) as [ss|] eqn:Hcur; [|discriminate Hset].
+    apply andb_prop in Hset. destruct Hset as [Hend Hq].
+    destruct (s_achan ss) eqn:Hach; [|discriminate Hq]. destruct (s_apc ss) eqn:Hapc; try discriminate Hq.
+    pose proof (pend_shape_reach P s Hfix Hr ss Hcur) as Hps. unfold pend_shape in Hps. rewrite Hapc in Hps.
+    pose proof (inv1_reach P s Hr) as Hi. pose proof (i_last s Hi) as Hl. pose proof (i_lo s Hi) as Hlo. rewrite Epc in Hl, Hlo.
+    assert (Hqt : quiet s (s_id ss)) by (exists ss; repeat split; auto).
+    destruct (rounds_input P (s_id ss) (inq s) s Hcap Epc eq_refl Hqt) as (s2 & R2 & P2 & I2 & Q2 & L2 & _).
+    eexists. exists s2. split; [exact R2|]. split; [apply rounds_healthy|]. split; [|exact I2].
+    destruct Q2 as (ss2 & C2 & _ & A2 & Pn2 & _ & La2).
+    unfold holdings, sess_holdings. rewrite L2, Hlo, La2, C2, A2, Pn2. reflexivity.
+Qed.
+
+(* For the repaired client, with or without a max session age: from ANY reachable state of a client that has not
+   been asked to stop there is a continuation in which it keeps running and the upstream behaves, after which every
+   chunk ever taken from the queue has been reported delivered, nothing is held, nothing was handed back and the
+   queue is empty. *)
 Lemma recoverable_lemma : forall P tr0 s,
-  1 <= p_cap P -> p_maxage P = true ->
+  1 <= p_cap P -> p_fix P = true ->
   reach_by P tr0 s -> in_contract tr0 -> distinct_input tr0 -> stop_sig s = false -> in_closed s = false ->
-  exists tr s', run P s tr = Some s' /\ forallb healthy_cont tr = true /\
+  exists tr s', run P s tr = Some s' /\ healthy_from (closes_of tr0) tr = true /\
                 holdings s' = [] /\ inq s' = [] /\
                 Permutation (taken_of (tr0 ++ tr)) (consumed_of (tr0 ++ tr)) /\ handed_of (tr0 ++ tr) = [].
 Proof.
-  intros P tr0 s Hcap Hage Hr0 Hc0 Hd0 Hstop Hinc.
+  intros P tr0 s Hcap Hfix Hr0 Hc0 Hd0 Hstop Hinc.
   assert (Hlive : stopping s = false) by (unfold stopping; rewrite Hstop, Hinc; reflexivity).
-  destruct (to_boundary P Hage Hcap (rank s) (arank s) s eq_refl eq_refl (ex_intro _ tr0 Hr0) Hlive) as (tr1 & s1 & R1 & F1 & P1).
-  assert (Hl1 : stopping s1 = false) by (rewrite (healthy_run_stopping P tr1 s s1 F1 R1); exact Hlive).
-  assert (Hs1 : stop_sig s1 = false) by (unfold stopping in Hl1; destruct (stop_sig s1); [discriminate|reflexivity]).
-  destruct (progress_lemma P s1 Hcap P1 Hs1) as (s2 & R2 & _ & _ & L2 & Q2 & La2 & (ss2 & C2 & Hh2)).
-  set (tr2 := healthy (S (nconn s1)) (lo s1) (inq s1)) in *.
+  destruct (to_settled P Hcap (rank s) (arank s) (crank s) tr0 s eq_refl eq_refl eq_refl Hr0 Hlive) as (tr1 & s1 & R1 & F1 & P1).
+  assert (Hl1 : stopping s1 = false) by (rewrite (healthy_run_stopping P tr1 _ s s1 F1 R1); exact Hlive).
+  assert (Hreach1 : reach P s1) by (exists (tr0 ++ tr1); unfold reach_by in *; rewrite run_app, Hr0; exact R1).
+  destruct (settled_finish P s1 Hfix Hcap Hreach1 Hl1 P1) as (tr2 & s2 & R2 & F2 & Hhold & Q2).
   exists (tr1 ++ tr2), s2.
   assert (Hrun : run P s (tr1 ++ tr2) = Some s2) by (rewrite run_app, R1; exact R2).
-  assert (Hf : forallb healthy_cont (tr1 ++ tr2) = true) by (rewrite forallb_app, F1; apply healthy_script_healthy).
+  assert (Hf : healthy_from (closes_of tr0) (tr1 ++ tr2) = true).
+  { rewrite healthy_from_app, F1. apply healthy_cont_from. exact F2. }
   split; [exact Hrun|]. split; [exact Hf|].
-  assert (Hhold : holdings s2 = []) by (unfold holdings; rewrite L2, La2, C2, Hh2; reflexivity).
   split; [exact Hhold|]. split; [exact Q2|].
   assert (Hr2 : reach_by P (tr0 ++ tr1 ++ tr2) s2).
   { unfold reach_by in *. rewrite run_app, Hr0. exact Hrun. }
-  destruct (healthy_no_offer _ Hf) as (Ho & Hb & Hh).
+  destruct (healthy_no_offer _ _ Hf) as (Ho & Hb & Hh).
   assert (Hc2 : in_contract (tr0 ++ tr1 ++ tr2)).
   { unfold in_contract in *. intro H. apply in_app_or in H. destruct H; auto. }
   assert (Hd2 : distinct_input (tr0 ++ tr1 ++ tr2)).
@@ -268,8 +392,34 @@ Proof.
     assert (Hne : h_handed s2 <> []).
     { rewrite (hs_handed _ _ Hhist), E. simpl. intro H. apply app_eq_nil in H. destruct H; discriminate. }
     assert (Hreach2 : reach P s2) by (exists (tr0 ++ tr1 ++ tr2); exact Hr2).
-    destruct (handed_only_at_end P s2 Hreach2 Hne) as [Hp|Hp];
-      destruct (i_between s2 (inv1_reach P s2 Hreach2)) as [Hcn _]; try (rewrite Hp; reflexivity); congruence. }
+    assert (Hl2 : stopping s2 = false) by (rewrite (healthy_run_stopping P _ _ s s2 Hf Hrun); exact Hlive).
+    pose proof (inv6_reach P s2 Hreach2) as [N1 _ _].
+    destruct (handed_only_at_end P s2 Hreach2 Hne) as [Hp|Hp]; rewrite Hp in N1; congruence. }
   split; [|exact Hhand].
   rewrite Hhold, Hhand in Hperm. simpl in Hperm. rewrite ?app_nil_r in Hperm. exact Hperm.
+Qed.
+
+(* ... and no healthy continuation can lead the repaired client into a state from which that is no longer possible
+   (the negation of the liveness gap of the original code): after ANY healthy continuation a healthy completion exists *)
+Lemma never_stuck_lemma : forall P tr0 s tr1 s1,
+  1 <= p_cap P -> p_fix P = true ->
+  reach_by P tr0 s -> in_contract tr0 -> distinct_input tr0 -> stop_sig s = false -> in_closed s = false ->
+  healthy_from (closes_of tr0) tr1 = true -> run P s tr1 = Some s1 ->
+  exists tr2 s2, run P s1 tr2 = Some s2 /\ healthy_from (closes_of (tr0 ++ tr1)) tr2 = true /\
+                 holdings s2 = [] /\ inq s2 = [] /\
+                 Permutation (taken_of (tr0 ++ tr1 ++ tr2)) (consumed_of (tr0 ++ tr1 ++ tr2)) /\
+                 handed_of (tr0 ++ tr1 ++ tr2) = [].
+Proof.
+  intros P tr0 s tr1 s1 Hcap Hfix Hr0 Hc0 Hd0 Hstop Hinc Hf1 R1.
+  assert (Hlive : stopping s = false) by (unfold stopping; rewrite Hstop, Hinc; reflexivity).
+  assert (Hl1 : stopping s1 = false) by (rewrite (healthy_run_stopping P tr1 _ s s1 Hf1 R1); exact Hlive).
+  unfold stopping in Hl1. apply orb_false_elim in Hl1. destruct Hl1 as [Hs1 Hi1].
+  destruct (healthy_no_offer _ _ Hf1) as (Ho & Hb & _).
+  assert (Hr1 : reach_by P (tr0 ++ tr1) s1) by (unfold reach_by in *; rewrite run_app, Hr0; exact R1).
+  assert (Hc1 : in_contract (tr0 ++ tr1)).
+  { unfold in_contract in *. intro H. apply in_app_or in H. destruct H; auto. }
+  assert (Hd1 : distinct_input (tr0 ++ tr1)).
+  { unfold distinct_input in *. rewrite offered_of_app, Ho, app_nil_r. exact Hd0. }
+  destruct (recoverable_lemma P (tr0 ++ tr1) s1 Hcap Hfix Hr1 Hc1 Hd1 Hs1 Hi1) as (tr2 & s2 & H).
+  exists tr2, s2. rewrite <- !app_assoc in H. exact H.
 Qed.
